@@ -159,11 +159,6 @@ func runC06(cfg runCfg) error {
 		envs = append(envs, env)
 		w.preamble += env.preamble()
 	}
-	// a gateway with a tiny request limit for the limit-hit clause
-	envLim, err := newEnv(fixtures[0], gwOpts{maxRequests: 1})
-	if err != nil {
-		return err
-	}
 	distinct := 0
 	orders := 6
 	if cfg.tier == "thorough" {
@@ -171,11 +166,9 @@ func runC06(cfg runCfg) error {
 	}
 	for i := 0; i < cfg.n; i++ {
 		name := fmt.Sprintf("c06-%d-%d", cfg.seed, i)
-		env := envs[[]int{0, 0, 0, 2}[r.Intn(4)]]
-		limited := r.Intn(6) == 0
-		if limited {
-			env = envLim
-		}
+		env := envs[[]int{0, 0, 0, 2, 2}[r.Intn(5)]]
+		limited := r.Intn(3) == 0
+		env.gw.es.MaxRequestsPerQuery = 50
 		env.world.data = genData(r, env.fed, dataOpts{nullProb: 0.1, safeStrings: true})
 		qo := qOpts{maxDepth: 3 + r.Intn(3), fragments: r.Intn(4) == 0, aliases: true, typename: true, args: true, safeStrings: true}
 		var q string
@@ -200,9 +193,28 @@ func runC06(cfg runCfg) error {
 			continue
 		}
 		var faults []faultSpec
-		if r.Intn(3) == 0 {
+		var lookups []*recorded
+		for _, rq := range run0.Requests {
+			if faultTarget(env.fed, rq) != "root" {
+				lookups = append(lookups, rq)
+			}
+		}
+		if r.Intn(3) == 0 || (limited && len(lookups) > 0 && r.Intn(3) > 0) {
 			rq := run0.Requests[r.Intn(len(run0.Requests))]
+			if limited && len(lookups) > 0 { // a failing lookup round together with a limit near the number of rounds
+				rq = lookups[r.Intn(len(lookups))]
+			}
 			faults = append(faults, faultSpec{Svc: rq.Svc, Target: faultTarget(env.fed, rq), Kind: faultKinds[r.Intn(len(faultKinds))]})
+		}
+		max := int64(50)
+		if limited {
+			// the limit is drawn around the number of lookup rounds of the fault-free run: one or two below it, exactly it, or 1
+			n := int64(len(lookups))
+			max = []int64{n - 1, n - 1, n - 2, n, 1}[r.Intn(5)]
+			if max < 1 {
+				max = 1
+			}
+			env.gw.es.MaxRequestsPerQuery = max
 		}
 		env.world.faultFor = makeFaultFor(env.fed, faults)
 		keys := map[string]bool{}
@@ -264,12 +276,9 @@ func runC06(cfg runCfg) error {
 		sum.GoOracle = append(sum.GoOracle,
 			oracleResult{Case: name, Component: "prop.c06.same_data_bytes", OK: okBytes, Detail: detail},
 			oracleResult{Case: name, Component: "prop.c06.same_errors", OK: okErrs, Detail: detail})
-		max := int64(50)
-		if limited {
-			max = 1
-		}
+		env.gw.es.MaxRequestsPerQuery = 50
 		w.add(name, emitE2ECase(env, first, e2eCaseOpts{max: max, conforming: true, faults: faults}))
-		in := map[string]interface{}{"fixture": env.fx.Name, "query": q, "variables": vars, "faults": faults, "orders": sortedKeys(seqs), "limited": limited}
+		in := map[string]interface{}{"fixture": env.fx.Name, "query": q, "variables": vars, "faults": faults, "orders": sortedKeys(seqs), "limited": limited, "max_requests": max}
 		sum.CaseInputs[name] = in
 		if len(sum.Samples) < 4 {
 			sum.Samples = append(sum.Samples, in)
